@@ -176,3 +176,18 @@ End Annotate.
 Fixpoint mapi_from {A B} (f : nat -> A -> B) (i : nat) (l : list A) : list B :=
   match l with [] => [] | x :: t => f i x :: mapi_from f (S i) t end.
 Definition mapi {A B} (f : nat -> A -> B) (l : list A) : list B := mapi_from f 0 l.
+
+(* ---------- monomorphic literal builders (generated case files type-check much faster
+   without implicit type arguments to infer) ---------- *)
+Definition kN : list (string * list node) := [].
+Definition kC (s : string) (l : list node) (r : list (string * list node)) : list (string * list node) := (s, l) :: r.
+Definition aN : list (string * string) := [].
+Definition aC (k v : string) (r : list (string * string)) : list (string * string) := (k, v) :: r.
+Definition lN : list node := [].
+Definition lC (n : node) (l : list node) : list node := n :: l.
+Definition pN : path := [].
+Definition pC (s : string) (i : nat) (p : path) : path := (s, i) :: p.
+Definition ppN : list path := [].
+Definition ppC (p : path) (l : list path) : list path := p :: l.
+Definition sN : list string := [].
+Definition sC (s : string) (l : list string) : list string := s :: l.
